@@ -78,13 +78,35 @@ CLAIMED = {
   'design_ref': 'DESIGN.md section 5 C06',
   'note': 'Trusted: Verus/Z3; String::from_utf8 = RFC 3629 decoding (stub); char classification std specs. Not decided: LALR tables and reduce actions (operator precedence, associativity), keyword/number tokenisation, names.',
  },
+ 'C03': {
+  'text': 'Partial. Verus proves on the real bodies of decision_table.rs, for all tables (any number of rules/outputs, any match pattern): a rule matches exactly when every input-entry evaluator yields true; '
+          'the 12 hit-policy functions and their dispatch return what the policy prescribes over exactly the matching rules (UNIQUE, ANY, FIRST, PRIORITY, RULE ORDER, OUTPUT ORDER, COLLECT list/count/sum/min/max), '
+          'the default on no match, contexts keyed by component names for compound outputs; the output-value priority comparator is the lexicographic rank order; and (unit compare) the unary tests '
+          '< <= > >= and not(...) used by input entries accept exactly the values they should.',
+  'design_ref': 'DESIGN.md section 5 C03',
+  'note': 'Trusted: Verus/Z3; evaluators are opaque (dyn Fn); sort_by sorts by the (verified) comparator (assumed: result is a permutation); filter/collect and position stubs; FEEL aggregates uninterpreted. '
+          'Not decided: parsing of the table from XML/text, interval/list unary tests inside input entries beyond those under contract.',
+ },
+ 'C12': {
+  'text': 'Partial (index-safety kernels). Verus proves that the decision-table evaluation code never indexes out of bounds given every rule carries one output value per output clause (get_result, hit policies, '
+          'compound outputs with fewer names than outputs answer null), that evaluate_parsed_decision_table preserves rule/output arities, and that Workspace::deploy skips models that fail to build and deploys the others.',
+  'design_ref': 'DESIGN.md section 5 C12',
+  'note': 'Not decided: XML parsing (roxmltree), missing attributes, dangling references, cyclic requirements, item-definition classification (pending), parse_decision_table\'s arity validation (repaired by a fix: commit, not yet under contract).',
+ },
+ 'C11': {
+  'text': 'Partial. Verus proves on the real closure bodies (contracts generated per type from one table of the eight simple types): the simple-type and collection-of-simple-type item-definition evaluators and the '
+          'typed input-variable evaluators return the value unchanged when it is of the declared kind (every element, for collections) and passes the allowed-values check, and null otherwise; '
+          'check_allowed_values returns the value iff the test accepts it; item_definition_type classifies every typeRef/components/isCollection combination or reports an error; output coercion is FeelType::coerced (C16).',
+  'design_ref': 'DESIGN.md section 5 C11',
+  'note': 'Trusted: Verus/Z3; evaluators/scopes opaque; closure lifting R4 ties each closure to the builder name / typeRef literal it sits under. Not decided: component/referenced item definitions, dispatch match arms, where coercion is applied.',
+ },
 }
 NOT_APPLICABLE = {
- 'C02': TODO, 'C03': TODO,
+ 'C02': TODO,
  'C04': 'the property is about dyn Fn closures stored in RwLock<HashMap> registries calling one another along the requirement graph; no first-order function carries it, Verus has no support for dyn Fn fields / std RwLock guards, Kani cannot bound the graph (DESIGN.md section 6)',
 
  'C07': 'deciding code is str/format!/C decNumber string conversion (scientific_to_plain, decQuadToString); Verus has no specs for these str APIs and Kani/CBMC did not finish a 3-character instance in 15 min (DESIGN.md section 6)',
- 'C10': TODO, 'C11': TODO, 'C12': TODO, 'C13': TODO,
+ 'C10': TODO, 'C13': TODO,
  'C18': TODO, 'C19': TODO,
  'C20': 'a schedule property: Kani has no thread support and Verus would need the code rewritten onto its own permission/atomic types; Send+Sync is checked by rustc, not by this family (DESIGN.md section 6)',
 }
